@@ -11,6 +11,8 @@ from pyvc.contracts import FnContract, LoopSpec, Raises
 from pyvc.values import VBool, VExt, VFunc, VInt, VSeq, VUnk, ext_sort
 from pyvc.verify import p_ext, p_obj, p_int, p_real, p_opt, p_str
 from pyvc import ops
+from pyvc.values import NONE, fresh_name
+from contracts import common
 
 ZB = "sharepoint2text/parsing/extractors/util/zip_bomb.py"
 
@@ -86,7 +88,7 @@ def sizes_nonneg(zf):
 def requires(c):
     zf = c.args["zf"].t
     L = limits_of(c, c.entry)
-    return z3.And(n_of(zf) >= 0, sizes_nonneg(zf), L["total"] >= 0, mono_lemma(zf))
+    return z3.And(n_of(zf) >= 0, sizes_nonneg(zf), L["total"] >= 0)
 
 
 def loop_inv(lc):
@@ -116,7 +118,37 @@ def m_infolist(ex, st, obj, args, kwargs, node):
     return [(st, VSeq(n_of(zf), lambda i: VExt("ZipInfo", info_at(zf, i)), "ZipInfo"))]
 
 
+def new_zipfile(ex, st, args, kwargs, node):
+    """zipfile.ZipFile(file_like, 'r'): ASSUMED -- raises anything or returns a
+    container view with n >= 0 entries of non-negative sizes; moves the stream."""
+    ex.exc_any(st.fork(), f"{ex.loc(node)} zipfile.ZipFile()")
+    zf = VExt("ZipFile")
+    st.assume(z3.And(n_of(zf.t) >= 0, sizes_nonneg(zf.t)))
+    src = args[0] if args else None
+    if isinstance(src, VExt) and src.sort == "BytesIO":
+        t = z3.Int(fresh_name("pos"))
+        st.assume(t >= 0)
+        st.ghost[common.pos_key(src)] = t
+    st.ghost["open_zips"] = st.ghost.get("open_zips", frozenset()) | {zf.t.get_id()}
+    return [(st, zf)]
+
+
+def m_close(ex, st, obj, args, kwargs, node):
+    st.ghost["open_zips"] = st.ghost.get("open_zips", frozenset()) - {obj.t.get_id()}
+    return [(st, NONE)]
+
+
+def with_zip(ex, st, cm, phase):
+    if phase == "enter":
+        return [(st, cm)]
+    st.ghost["open_zips"] = st.ghost.get("open_zips", frozenset()) - {cm.t.get_id()}
+
+
 def install_models(reg):
+    common.install_bytesio(reg)
+    reg.ext_models[("new", "zipfile.ZipFile")] = new_zipfile
+    reg.ext_models[("with", "ZipFile")] = with_zip
+    reg.method_models[("ZipFile", "close")] = m_close
     reg.method_models[("ZipFile", "infolist")] = m_infolist
     reg.attr_models[("ZipInfo", "file_size")] = lambda ex, st, o: VInt(fs(o.t))
     reg.attr_models[("ZipInfo", "compress_size")] = lambda ex, st, o: VInt(cs(o.t))
@@ -142,11 +174,42 @@ def contracts(reg):
         target=f"{ZB}::validate_zipfile",
         params=[("zf", p_ext("ZipFile")), ("limits", LIMITS), ("source", p_opt(p_str()))],
         requires=requires,
+        hyps=lambda c: mono_lemma(c.args["zf"].t),
         ensures=[("accepts-only-if-not-spec_reject", lambda c: z3.Not(spec_reject(c.args["zf"].t, limits_of(c))))],
         raises=[Raises("ExtractionZipBombError",
                        when=lambda c: z3.Or(z3.BoolVal(bool(c.st.ghost.get("infolist_failed"))),
                                             spec_reject(c.args["zf"].t, limits_of(c))))],
         loops={0: LoopSpec(inv=loop_inv, label="entries")},
+    ))
+    def pos_restored(c):
+        return common.bytesio_pos(c.st, c.args["file_like"]) == common.bytesio_pos(c.entry, c.args["file_like"])
+
+    def lim_req(c):
+        return limits_of(c, c.entry)["total"] >= 0
+
+    def pos_entry(c):
+        # materialise the ghost stream position (>= 0) in the current state and share it with the entry snapshot
+        t = common.bytesio_pos(c.st, c.args["file_like"])
+        c.entry.ghost[common.pos_key(c.args["file_like"])] = t
+        return lim_req(c)
+
+    out.append(FnContract(
+        target=f"{ZB}::validate_zip_bytesio",
+        params=[("file_like", p_ext("BytesIO")), ("limits", LIMITS), ("source", p_opt(p_str()))],
+        requires=pos_entry,
+        ensures=[("position-restored", pos_restored),
+                 ("no-container-left-open", lambda c: z3.BoolVal(not c.st.ghost.get("open_zips")))],
+        raises=[Raises("Exception", sub=True, label="any failure, position restored, container closed",
+                       when=lambda c: z3.And(pos_restored(c), z3.BoolVal(not c.st.ghost.get("open_zips"))))],
+    ))
+    out.append(FnContract(
+        target=f"{ZB}::open_zipfile",
+        params=[("file_like", p_ext("BytesIO")), ("limits", LIMITS), ("source", p_opt(p_str()))],
+        requires=lim_req,
+        ensures=[("returned-container-validated", lambda c: z3.Not(spec_reject(c.result.t, limits_of(c)))),
+                 ("returned-container-open", lambda c: z3.BoolVal(c.st.ghost.get("open_zips") == frozenset({c.result.t.get_id()})))],
+        raises=[Raises("Exception", sub=True, label="closed on failure",
+                       when=lambda c: z3.BoolVal(not c.st.ghost.get("open_zips")))],
     ))
     return out
 
@@ -162,3 +225,175 @@ def lemmas():
         ("C11/zip_bomb.py::spec/lemma#prefix-total-monotone.step", hyp + [b >= 0, b < n_of(zf), mono_lemma(zf, b)],
          mono_lemma(zf, b + 1)),
     ]
+
+
+# ------------------------------------------------------- policy / typestate --
+ALLOWED_ZIPFILE_CTOR = {"sharepoint2text/parsing/extractors/util/zip_bomb.py",
+                        "sharepoint2text/parsing/extractors/archive_extractor.py"}
+
+
+def canonical_call(mod, call):
+    """Dotted origin of a call target using the module's import table."""
+    import ast as _ast
+    from pyvc.flow import dotted
+    d = dotted(call.func)
+    if not d:
+        return ""
+    head, _, rest = d.partition(".")
+    origin = mod.imports.get(head)
+    if origin:
+        return origin + ("." + rest if rest else "")
+    return d
+
+
+def policy(repo, tier):
+    import ast as _ast
+    from pyvc import loader
+    from pyvc.flow import MustFacts, ground_obligation, dotted
+    obls, fns = [], []
+    files = loader.all_package_files(repo)
+    mods = {f: loader.module(f, repo) for f in files}
+    # P1: the only constructors of zipfile containers live in zip_bomb.py / archive_extractor.py
+    bad = []
+    n_sites = 0
+    for f, m in mods.items():
+        for call in (n for n in _ast.walk(m.tree) if isinstance(n, _ast.Call)):
+            c = canonical_call(m, call)
+            if c.startswith("zipfile.") and c.split(".")[1] in ("ZipFile", "PyZipFile", "Path") or c == "shutil.unpack_archive":
+                n_sites += 1
+                if f not in ALLOWED_ZIPFILE_CTOR:
+                    bad.append(f"{f}:{call.lineno} {c}")
+    obls.append(ground_obligation("C11/package/policy#zipfile-constructed-only-in-guard-and-archive-modules",
+                                  not bad and n_sites >= 3, "; ".join(bad) or f"{n_sites} sites", "package"))
+    # P2: ZipContext family: the container handle comes from open_zipfile, before any member access
+    zc = mods["sharepoint2text/parsing/extractors/util/zip_context.py"]
+    cls = zc.classes.get("ZipContext")
+    ok, why = True, []
+    if cls is None:
+        ok, why = False, ["ZipContext missing"]
+    else:
+        init = zc.functions.get("ZipContext.__init__")
+        assigns = [n for n in _ast.walk(cls) if isinstance(n, _ast.Assign) and any(
+            isinstance(t, _ast.Attribute) and t.attr == "_zip" for t in n.targets)]
+        for a_ in assigns:
+            src = canonical_call(zc, a_.value) if isinstance(a_.value, _ast.Call) else ""
+            if not src.endswith("zip_bomb.open_zipfile"):
+                ok = False
+                why.append(f"_zip assigned from {_ast.unparse(a_.value)} at line {a_.lineno}")
+        if not assigns:
+            ok = False
+            why.append("no assignment of _zip")
+        if init is not None:
+            mf = MustFacts(
+                gen=lambda call: (),
+                need=lambda n: [("validated", f"line {n.lineno}")] if isinstance(n, _ast.Call) and isinstance(n.func, _ast.Attribute)
+                and _ast.unparse(n.func.value) == "self._zip" else [])
+            # the assignment statement generates the fact: model it via gen on the open_zipfile call
+            mf.gen = lambda call: ["validated"] if canonical_call(zc, call).endswith("zip_bomb.open_zipfile") else []
+            for r in mf.run(init):
+                if not r.ok:
+                    ok = False
+                    why.append(f"member access before validation in __init__ {r.desc}")
+        # other methods may only use self._zip (created validated); nothing else opens containers (P1)
+    fns.append(dict(zc.fn_info("ZipContext.__init__"), obligations=1) if cls is not None else {})
+    obls.append(ground_obligation("C11/zip_context.py::ZipContext/typestate#handle-from-open_zipfile-before-any-access",
+                                  ok, "; ".join(why), "zip_context.py"))
+    # P3: subclasses of ZipContext do not bypass __init__
+    fam = {"ZipContext"}
+    changed = True
+    classes = []
+    while changed:
+        changed = False
+        for f, m in mods.items():
+            for cname, cnode in m.classes.items():
+                bases = {_ast.unparse(b).split(".")[-1] for b in cnode.bases}
+                if bases & fam and cname not in fam:
+                    fam.add(cname)
+                    classes.append((f, m, cname, cnode))
+                    changed = True
+    bad = []
+    for f, m, cname, cnode in classes:
+        init = m.functions.get(f"{cname}.__init__")
+        if init is None:
+            continue
+        first_calls = [n for n in _ast.walk(init) if isinstance(n, _ast.Call)]
+        sup = [n for n in first_calls if _ast.unparse(n.func) in ("super().__init__", "ZipContext.__init__", "OOXMLZipContext.__init__")]
+        if not sup:
+            bad.append(f"{f}:{cname}.__init__ does not call super().__init__")
+            continue
+        mf = MustFacts(gen=lambda call: ["validated"] if _ast.unparse(call.func) in ("super().__init__", "ZipContext.__init__", "OOXMLZipContext.__init__") else [],
+                       need=lambda n: [("validated", f"{cname} line {n.lineno}")] if isinstance(n, _ast.Call) and isinstance(n.func, _ast.Attribute)
+                       and (_ast.unparse(n.func.value) in ("self._zip",) or (_ast.unparse(n.func.value) == "self" and n.func.attr in
+                            ("read_xml_root", "read_text", "read_bytes", "open_stream", "exists"))) else [])
+        for r in mf.run(init):
+            if not r.ok:
+                bad.append(f"{f}:{r.desc} uses the container before super().__init__")
+        # overriding the handle
+        for n in _ast.walk(cnode):
+            if isinstance(n, _ast.Assign) and any(isinstance(t, _ast.Attribute) and t.attr == "_zip" for t in n.targets):
+                bad.append(f"{f}:{cname} reassigns _zip at line {n.lineno}")
+    obls.append(ground_obligation("C11/package/typestate#ZipContext-subclasses-initialise-through-validated-base",
+                                  not bad and len(classes) >= 6, "; ".join(bad) or f"{len(classes)} subclasses: {sorted(c[2] for c in classes)}", "package"))
+    # P4: openpyxl.load_workbook only on bytes that passed validate_zip_bytesio (same variable, not reassigned)
+    def bytes_key(arg):
+        if isinstance(arg, _ast.Call) and dotted(arg.func) in ("io.BytesIO", "BytesIO") and arg.args:
+            return _ast.unparse(arg.args[0])
+        return _ast.unparse(arg)
+    bad, n_live, n_dead = [], 0, 0
+    for f, m in mods.items():
+        callers = {}
+        for q, fnode in m.functions.items():
+            uses = [n for n in _ast.walk(fnode) if isinstance(n, _ast.Call) and canonical_call(m, n).endswith("load_workbook")
+                    and not any(n in list(_ast.walk(inner)) for qq, inner in m.functions.items() if qq != q and qq.startswith(q + "."))]
+            if not uses:
+                continue
+            mf = MustFacts(
+                gen=lambda call: [("validated", bytes_key(call.args[0]))] if canonical_call(m, call).endswith("zip_bomb.validate_zip_bytesio") and call.args else [],
+                need=lambda n: [(("validated", bytes_key(n.args[0])), f"{f}:{n.lineno}")] if isinstance(n, _ast.Call)
+                and canonical_call(m, n).endswith("load_workbook") and n.args else [],
+                kill_names=lambda fact: [fact[1]] if isinstance(fact, tuple) else [])
+            res = mf.run(fnode)
+            undominated = [r for r in res if not r.ok]
+            if not undominated:
+                n_live += len(res)
+                continue
+            # the function itself must then only be reachable after validation: require no call sites at all
+            name = q.split(".")[-1]
+            sites = []
+            for f2, m2 in mods.items():
+                for n in _ast.walk(m2.tree):
+                    if isinstance(n, _ast.Call) and dotted(n.func).split(".")[-1] == name:
+                        modpath = f[:-3].replace("/", ".")
+                        if f2 == f or canonical_call(m2, n).startswith(modpath):
+                            sites.append(f"{f2}:{n.lineno}")
+            if sites:
+                bad.append(f"{undominated[0].desc} load_workbook not dominated by validate_zip_bytesio; {q} is called at {sites}")
+            else:
+                n_dead += len(undominated)
+    obls.append(ground_obligation("C11/xlsx_extractor.py::load_workbook/typestate#validated-before-openpyxl-reads",
+                                  not bad and n_live >= 1, "; ".join(bad) or f"{n_live} dominated site(s), {n_dead} site(s) in functions without call sites", "xlsx_extractor.py"))
+    # P5: the ODF encryption probe reads the manifest through open_zipfile
+    enc = mods["sharepoint2text/parsing/extractors/util/encryption.py"]
+    fn = enc.functions.get("is_odf_encrypted")
+    ok = False
+    why = "is_odf_encrypted missing"
+    if fn is not None:
+        withs = [n for n in _ast.walk(fn) if isinstance(n, _ast.With)]
+        reads = [n for n in _ast.walk(fn) if isinstance(n, _ast.Call) and isinstance(n.func, _ast.Attribute) and n.func.attr in ("read", "open")]
+        ok = bool(reads) and all(any(r in list(_ast.walk(w)) and isinstance(w.items[0].context_expr, _ast.Call)
+                                     and canonical_call(enc, w.items[0].context_expr).endswith("zip_bomb.open_zipfile")
+                                     and _ast.unparse(r.func.value) == _ast.unparse(w.items[0].optional_vars) for w in withs) for r in reads)
+        why = f"{len(reads)} member read(s)"
+        fns.append(dict(enc.fn_info("is_odf_encrypted"), obligations=1))
+    obls.append(ground_obligation("C11/encryption.py::is_odf_encrypted/typestate#manifest-read-through-open_zipfile", ok, why, "encryption.py"))
+    return {"obligations": obls, "functions": [f for f in fns if f]}
+
+
+EXTRA = [policy]
+
+TRUSTED = ["zipfile.ZipFile.infolist()/ZipInfo fields present the central directory (assumed view)"]
+ASSUMED_MODELS = ["zipfile.ZipFile (constructor, infolist, close, context manager)", "zipfile.ZipInfo.file_size/compress_size/is_dir",
+                  "io.BytesIO.tell/seek"]
+ASSUMPTIONS = ["PY-INT", "PY-FLOAT-REAL: size ratios compared over the reals", "PY-EXC / EXC-ANY for library calls",
+               "ZipInfo sizes are non-negative integers", "configured total-size limit is non-negative",
+               "policy obligations (zipfile constructor sites, validate-before-read) are decided by AST dominance analysis (back end 'dataflow')"]
